@@ -94,9 +94,6 @@ def callsignAlphabet : List Char := "ABCDEFGHIJKLMNOPQRSTUVWXYZ0123456789 #".toL
 def rangeSpec : List (Nat × Constraint) := [
   ((key! "track").id, .range 0 360 false),
   ((key! "heading").id, .range 0 360 false),
-  ((key! "track_angle").id, .range 0 360 false),
-  ((key! "true_track").id, .range 0 360 false),
-  ((key! "magnetic_heading").id, .range 0 360 false),
   ((key! "wind_direction").id, .range 0 360 false),
   ((key! "selected_heading").id, .range 0 360 false),
   ((key! "threat_bearing").id, .range 0 360 false),
@@ -114,7 +111,7 @@ def rangeSpec : List (Nat × Constraint) := [
   ((key! "squawk").id, .octal4),
   ((key! "humidity").id, .range 0 100 true),
   ((key! "temperature").id, .range (-80) 60 true),
-  ((key! "static_air_temperature").id, .range (-80) 60 true),
+  ((key! "static_temperature").id, .range (-80) 60 true),
   ((key! "callsign").id, .charset callsignAlphabet) ]
 
 def specFor (k : Nat) : Option Constraint :=
